@@ -17,3 +17,27 @@ def b2(p, x):
     if x == "N":
         raise Transient("transient-%s-%s" % (p, x))
     return [p, x]
+
+
+def _show(r):
+    return "exc:%s" % type(r).__name__ if isinstance(r, Exception) else r
+
+
+@m.memento_function(cluster="vfc", version="1", dependencies=[b2])
+def parent_batch(xs):
+    """Evaluates the elements in ONE batch from inside a running memento function."""
+    sys.audit("vf.body", "parent_batch", xs)
+    return [_show(r) for r in b2.partial(7).call_batch([{"x": x} for x in xs], raise_first_exception=False)]
+
+
+@m.memento_function(cluster="vfc", version="1", dependencies=[b2])
+def parent_each(xs):
+    """The same elements one call at a time."""
+    sys.audit("vf.body", "parent_each", xs)
+    out = []
+    for x in xs:
+        try:
+            out.append(b2.partial(7)(x=x))
+        except Exception as e:
+            out.append(_show(e))
+    return out
